@@ -3952,8 +3952,10 @@ impl fmt::Display for Statement {
                     temp = if *temporary { "TEMPORARY " } else { "" },
                     or_replace = if *or_replace { "OR REPLACE " } else { "" },
                 )?;
-                if let Some(args) = args {
-                    write!(f, "({})", display_comma_separated(args))?;
+                // the parameter list is not optional: `m()` has an empty one
+                match args {
+                    Some(args) => write!(f, "({})", display_comma_separated(args))?,
+                    None => write!(f, "()")?,
                 }
                 match definition {
                     MacroDefinition::Expr(expr) => write!(f, " AS {expr}")?,
